@@ -296,7 +296,9 @@ def complement(ctx):
                             raise bp.Opaque(c_.get("scrut", {}), "match on a value that is not built from constructors")
                         for cl_, en_ in ways:
                             for cs_, env_ in hits:
-                                nxt.append((cl_ + list(cs_), dict(en_, **env_)))
+                                merged_ = dict(en_)
+                                merged_.update(env_)
+                                nxt.append((cl_ + list(cs_), merged_))
                     else:
                         nxt = [(cl_ + [(c_, pol)], en_) for cl_, en_ in ways]
                     ways = nxt
